@@ -67,6 +67,10 @@ type clause struct {
 	// alt is true if the clause is another alternative of the disjunctive body of the preceding clause.
 	// Together they're one clause for clause/2 and retract/1.
 	alt bool
+
+	// offsets is the index of vars while the clause is being compiled. Searching vars for every occurrence of a
+	// variable would make the compilation quadratic to the number of variables.
+	offsets map[Variable]Integer
 }
 
 // is reports whether c and o are the same clause, i.e. copies of the result of one compilation.
@@ -83,10 +87,12 @@ func compileClause(head Term, body Term, env *Env) (clause, error) {
 	c.compileHead(head, env)
 	if body != nil {
 		if err := c.compileBody(body, env); err != nil {
+			c.offsets = nil
 			return c, typeError(validTypeCallable, body, env)
 		}
 	}
 	c.bytecode = append(c.bytecode, instruction{opcode: opExit})
+	c.offsets = nil
 	return c, nil
 }
 
@@ -219,11 +225,19 @@ func (c *clause) compileBodyArg(a Term, env *Env) {
 }
 
 func (c *clause) varOffset(o Variable) Integer {
-	for i, v := range c.vars {
-		if v == o {
-			return Integer(i)
+	if c.offsets == nil {
+		c.offsets = make(map[Variable]Integer, len(c.vars))
+		for i, v := range c.vars {
+			if _, ok := c.offsets[v]; !ok {
+				c.offsets[v] = Integer(i)
+			}
 		}
 	}
+	if i, ok := c.offsets[o]; ok {
+		return i
+	}
+	i := Integer(len(c.vars))
 	c.vars = append(c.vars, o)
-	return Integer(len(c.vars) - 1)
+	c.offsets[o] = i
+	return i
 }
